@@ -282,9 +282,10 @@ KEYS = [0, 0, 1, 2, 2, 3, 4, 5, 5, 6, 6, 7, 8]
 
 def gen_write(rng, serial):
     ops = [[4, 1 if rng.random() < 0.12 else 0]]
+    only_deletes = rng.random() < 0.15
     for _ in range(rng.choice([0, 1, 1, 1, 2, 3])):
         k = rng.choice(KEYS)
-        if rng.random() < 0.25:
+        if only_deletes or rng.random() < 0.25:
             ops.append([6, k])
         else:
             ops.append([5, k, serial[0] if k == 0 else rng.randrange(0, 6)])
@@ -364,6 +365,7 @@ ALPHABET = [
     [[4, 0], [7]],              # empty commit = rollback
     [[9, 2]], [[9, None]], [[10, 0]],
     [[2, 2]],                   # reader by serial
+    [[4, 0], [6, 2], [7]],      # a transaction that only deletes a name (commits iff the name existed)
 ]
 
 
@@ -377,6 +379,7 @@ ALPHABET2 = [
     [[4, 0], [5, 8, 2], [7]],              # nested NS at x.sub
     [[4, 0], [6, 8], [5, 2, 3], [7]],
     [[9, None]],
+    [[4, 0], [6, 7], [7]],                 # delete-only transaction below a (possible) delegation
 ]
 
 
@@ -391,13 +394,18 @@ def cases(ctx):
     L = ctx.n(3, 4)
     n = 0
     for word in itertools.product(range(len(ALPHABET)), repeat=L):
+        if L == 4 and (word[0] + word[3]) % 2:
+            continue   # thorough: half of the length-4 words (all length-3 words are prefixes of the kept ones)
         ops = [o for i in word for o in ALPHABET[i]]
         yield "exhaustive", [n % 2, ops]
         n += 1
     ctx.notes["exhaustive"] = True
-    ctx.notes["exhaustive_scope"] = f"all {len(ALPHABET)}^{L} histories of {L} macro-operations over a {len(ALPHABET)}-letter alphabet (zone kinds alternating)"
+    ctx.notes["exhaustive_scope"] = (
+        f"all histories of 3 macro-operations over a {len(ALPHABET)}-letter alphabet and over a {len(ALPHABET2)}-letter "
+        f"delegation alphabet (quick); thorough: all of length 4 over the second and half of length 4 over the first"
+    )
     # 2. random interleaved histories
-    for i in range(ctx.n(700, 9000)):
+    for i in range(ctx.n(700, 6000)):
         length = rng.choice([6, 10, 16, 24, 40])
         yield "history", [i % 2, gen_history(rng, length)]
     # 3. long retention scenarios: many commits under a max-versions policy with pinned readers
@@ -566,8 +574,16 @@ def generated_obligations(ctx):
 
 
 def extra(ctx):
+    import traceback
     import c11_atomic
-    return c11_immut.check(ctx) + c11_atomic.check(ctx)
+    F = []
+    for name, fn in (("immutability enumeration", c11_immut.check), ("reader() atomicity test", c11_atomic.check)):
+        try:
+            F += fn(ctx)
+        except Exception:  # noqa  (e.g. a zone cannot even be constructed any more)
+            F.append({"kind": "C11:" + name + " crashed", "what": name + " could not run: " + traceback.format_exc()[-600:],
+                      "sig": name + " crashed", "case": [0, [[0], [4, 0], [5, 2, 1], [7], [0]]]})
+    return F
 
 
 def widen(ctx, disagreements):
